@@ -43,12 +43,14 @@ CHECKS = {
     "Coq proof chain (ALM model, generated chain, normal-cone lemmas) + KKT recomputation oracle on real ALM runs"),
  "C02": C("proof",
     "PARTIAL. Proved for all strongly convex QPs, boxes and dimensions: an approximate KKT pair with tolerances (eps, delta) - what Converged certifies (C01) - satisfies mu|x-x*|^2 <= eps|x-x*|_1 + delta|y-y*|_1 against the exact KKT pair (monotonicity of box normal cones, Hoelder). "
-    "NOT proved: that every stack does reach Converged within the limits (liveness); explored on the implementation: every shipped stack on generated well-posed QPs must converge and meet the bound against (x*, y*) from an independent active-set solve verified by its KKT conditions.",
-    "4/C02", TB_REALS + "liveness by exploration only (stated in the evidence); reference solutions from Python active-set enumeration accepted only with KKT residual < 1e-8; known findings: ALM over the no-op direction (plain forward-backward) stalls on some problems.",
-    "Coq proof of the distance bound + exploration of convergence of all stacks against an independent reference"),
+    "LIVENESS proved for the whole-loop models of PANOC and ZeroFPR (Panoc.v / ZeroFpr.v, tied to the code by whole-run correspondence) over R, for EVERY direction provider: if psi has a global quadratic upper bound (Lf <= L_max), is bounded below on C, the oracles are coherent, tolerance factors are 0 and nobody calls stop(), the run returns Converged within an explicit N iterations "
+    "(ProjGradNorm/FPRNorm criteria; ApproxKKT for PANOC under a Lipschitz gradient), NoProgress and MaxIter are excluded, and for a strongly convex box-constrained QP the returned point satisfies the distance bound (end-to-end corollary). "
+    "NOT proved: liveness of PANTR, FISTA and of the outer ALM loop; explored on the implementation: every shipped stack on generated well-posed QPs must converge and meet the bound against (x*, y*) from an independent active-set solve verified by its KKT conditions; PANOC/ZeroFPR runs must stay within the proved iteration bound.",
+    "4/C02", TB_REALS + "liveness of ALM / PANTR / FISTA by exploration only (stated in the evidence); reference solutions from Python active-set enumeration accepted only with KKT residual < 1e-8; known findings: ALM over the no-op direction (plain forward-backward) stalls on some problems.",
+    "Coq proofs of the distance bound and of PANOC/ZeroFPR liveness on the whole-loop models + exploration of convergence of all stacks against an independent reference"),
  "C03": C("proof",
     "Theorems over R about the exit-block / multiplier kernels (SolverKernels.v): x written back is the projected step hence in C; err_z = g - Pi_D(g + y/Sigma); y = y_in + Sigma e; multiplier signs and complementarity; "
-    "overwrite policy (Converged, Interrupted or always_overwrite) and bit-for-bit no-overwrite. Tied to PANOC/ZeroFPR/PANTR/FISTA by teacher-forced correspondence on the real runs (exit block compared exactly) and by an oracle recomputing the relations from g and the boxes for every exit status, budget 0/1/.., both always_overwrite values, NaN, plateau, stop scenarios.",
+    "overwrite policy (Converged, Interrupted or always_overwrite) and bit-for-bit no-overwrite. Whole-loop Gallina models of PANOC, ZeroFPR, PANTR and FISTA (Properties_PANOC/ZEROFPR/PANTR/FISTA.v: exit = exit block of a consistent iterate for every oracle) tied by WHOLE-RUN correspondence, plus teacher-forced correspondence on the real runs (exit block compared exactly) and by an oracle recomputing the relations from g and the boxes for every exit status, budget 0/1/.., both always_overwrite values, NaN, plateau, stop scenarios.",
     "4/C03", TB_REALS + CORR + "box membership over doubles checked with 4 ulp slack; finite-x clause checked for finite-valued user functions; PANOC-OCP under C13, ALM under C01/C07.",
     "Coq proofs over R of executable kernels + one-step correspondence on solver runs + relation oracle"),
  "C04": C("proof",
@@ -73,9 +75,9 @@ CHECKS = {
     "4/C08", TB_REALS + "translator translate/gen_C08_fista.py (restricted expression grammar, out-of-grammar reported); convexity and descent lemma are Section hypotheses; hand loop skeleton (m=0) tied by correspondence.",
     "Translator-generated kernels + Coq rate proof + per-iteration correspondence + rate oracle"),
  "C09": C("proof",
-    "15 theorems: ring-buffer refinement to a bounded history for ALL op sequences and memories (update, forced update, reset, resize, scale_y; iteration orders), update stored iff documented acceptance test, two-loop recursion = dense BFGS operator of the history (over R), symmetric, secant equation, positive definite under enforced curvature, masked apply = restricted construction, scale_y = dense rescale; refuted: apply after apply_masked (known finding). "
+    "16 theorems: ring-buffer refinement to a bounded history for ALL op sequences and memories (update, forced update, apply, apply_masked, reset, resize, scale_y; iteration orders), update stored iff documented acceptance test, two-loop recursion = dense BFGS operator of the history (over R), symmetric, secant equation, positive definite under enforced curvature, masked apply = restricted construction and leaves the stored history and rho untouched (after repo fix 9c14560e5 the full-history theorem needs no hypothesis about apply_masked), scale_y = dense rescale. "
     "Correspondence on whole op sequences through the public API; oracle: exact-rational dense BFGS.",
-    "4/C09", TB_REALS + CORR + "std::pow is a Section variable; NaN marks as None; known finding C09:apply-after-masked-uses-overwritten-rho.",
+    "4/C09", TB_REALS + CORR + "std::pow is a Section variable; the NaN exclusion mark of apply_masked is a boolean flag over R (a genuine NaN at binary64).",
     "Coq refinement + operator algebra proofs + op-sequence correspondence + exact-rational oracle"),
  "C10": C("proof",
     "20 theorems: ring-index invariant and iterator enumeration for every add/remove/reset history within capacity (nat), Givens formulas give a rotation, Q triu(R) = A preserved by add (any number of reorthogonalisation passes), remove (Givens sweep over the rotated R) and scale_R for all histories, Anderson coefficients sum to 1 and the output is the affine combination. PARTIAL: orthonormality of Q, least-squares optimality of solve_col and the Anderson window content are checked numerically by the oracle only. "
